@@ -165,7 +165,9 @@ class ProjectedGradient(LinearOperator):
         if self.coord is None:
             # If coord attribute is None, just return gradients on specified axes.
             if len(self.axes) == 1:
-                return grad
+                # diffstack returns a stack with a leading axis of length one,
+                # snp.gradient a plain array
+                return grad if self.cdiff else grad[0]
             else:
                 return snp.blockarray(grad)
         else:
